@@ -8,8 +8,8 @@ from typing import Any, Iterator
 from jinja2 import nodes
 
 from .. import tplq
-from ..astutil import Locals, constructs_error, norm, short, where
-from ..cfg import walk_own
+from ..astutil import Locals, call_name, constructs_error, error_names, norm, returns_error, short, where
+from ..cfg import CFG, ENTRY, own_exprs, walk_own
 from ..core import PKG, Report
 from ..jinja_interp import expr_text
 from .siblings import Path as SimPath
@@ -25,7 +25,9 @@ LEVEL = ("sibling / guard rules: (1) every get_type_string implementation evalua
          "union parser, handle_nullable adds null on every path of every schema shape, enum builder facts; (5) query filter tests "
          "identity with UNSET/None, cookie and header writes outside the block of an UNSET test imply `required`, optional path "
          "parameters rejected on every path; (6) mandatory attributes are declared before defaulted ones (passes in execution order); "
-         "(7) required/default are never changed in place.")
+         "(7) required/default are never changed in place; (8) every function that hands on the requiredness of the declaration it was "
+         "given does so on every path to a successful return (statement CFG; keyword, position, keyword dictionary, alias local, or "
+         "the declaration itself handed to a forwarder).")
 
 TEMPLATE_DIR = "property_templates/"
 
@@ -47,6 +49,10 @@ def run(rep: Report, ctx: Any) -> str:
                       "mandatory one")
     rep.rule("R10.7", "`required` and `default` of a property are never changed in place (attribute store, setattr, object.__setattr__): "
                       "property objects are shared between models and endpoints, a changed value needs a copy")
+    rep.rule("R10.8", "a function that passes on the requiredness of the declaration it was given (its parameter `required`, or "
+                      "`<parameter>.required`) does so on every path: no return of a value that is not an error is reached without "
+                      "a call / keyword dictionary that receives it - a result taken from a cache or registry, or built with a "
+                      "constant, carries some other declaration's requiredness")
     rep.rule("R10.4", "the union parser returns None before trying any member exactly when None is among its JSON types; "
                       "handle_nullable covers type scalar / type list / oneOf / anyOf / allOf")
     rep.rule("R10.5", "query parameters are dropped only by identity with UNSET or None; a cookie or header is written outside the block "
@@ -314,6 +320,35 @@ def run(rep: Report, ctx: Any) -> str:
     rep.floor("attribute_stores_scanned", n_stores, 32)
     rep.ok("R10.7", "package::no-in-place-requiredness", n_stores, "no store to .required / .default")
 
+    # ---- R10.8 requiredness is forwarded on every path -------------------------------------------------------------------------
+    # R10.7 says an object's requiredness is given when it is made; this says that what is given is the declaration's.  The
+    # builders (property_from_data and its helpers, every `build`, parameter_from_data, ...) are found by what they do: somewhere
+    # they hand `required` / `<parameter>.required` on.  Each of them must do so before every successful return - by keyword, by
+    # position into a parameter called `required`, through a keyword dictionary, through a local that holds nothing else, or by
+    # handing the declaration itself to a function that forwards its `.required`.
+    fw = _Forwarding(ix)
+    n_fw = 0
+    for f in ix.all_functions:
+        if not fw.sources(f):
+            continue
+        n_fw += 1
+        cfg_ = CFG(f.node)
+        errs = error_names(f.node)
+        bad_returns = []
+        for r in cfg_.stmts():
+            if not isinstance(r, ast.Return) or r.value is None or (isinstance(r.value, ast.Constant) and r.value.value is None):
+                continue
+            if returns_error(r, errs) or fw.in_stmt(f, r):
+                continue
+            if not cfg_.every_path_passes(ENTRY, r, lambda n_: isinstance(n_, ast.stmt) and fw.in_stmt(f, n_)):
+                bad_returns.append(r)
+        rep.check(not bad_returns, "R10.8", f"{short(f)}::requiredness-forwarded",
+                  f"a path returns `{norm(bad_returns[0].value)[:60] if bad_returns else ''}` without having passed on the requiredness of the "
+                  f"declaration ({', '.join(sorted(fw.sources(f)))}): the result carries whatever requiredness it was made with elsewhere",
+                  where(f, bad_returns[0] if bad_returns else f.node), lhs=[f"line {r.lineno}: {norm(r)[:70]}" for r in bad_returns][:3],
+                  rhs="required=<the declaration's> on every path to a successful return")
+    rep.floor("requiredness_forwarders", n_fw, 10)
+
     # ---- R10.4 ---------------------------------------------------------------------------------------------------------
     ut = jx.templates.get(TEMPLATE_DIR + "union_property.py.jinja")
     rep.require(ut, "union template")
@@ -362,68 +397,55 @@ def run(rep: Report, ctx: Any) -> str:
     rep.require(em, "endpoint_macros.py.jinja")
     qp = em.macros.get("query_params")
     rep.require(qp, "query_params macro")
-    # the statement of the generated code that rebuilds `params` from its own items (whatever its loop variables are called)
+    # the statement of the generated code that drops entries of `params`: a comprehension that rebuilds it from its own items, or
+    # a loop over its items that deletes some (whatever the loop variables are called).  What it keeps, as a function of
+    # "the value is UNSET" / "the value is None", must be: exactly the values that are neither.
     filt = []
     line = ""
-    comp = None
+    keeps: "list[bool | None] | None" = None
     for f in _frags(qp.body, em, jx):
         if f.kind != "data":
             continue
-        for l in f.text.splitlines():
-            try:
-                tree = ast.parse(l.strip())
-            except SyntaxError:
-                continue
+        for tree in _py_blocks(f.text):
             for n in ast.walk(tree):
-                if isinstance(n, (ast.DictComp, ast.GeneratorExp, ast.ListComp)) and len(n.generators) == 1 and \
-                        norm(n.generators[0].iter) == "params.items()":
-                    filt, line, comp = [f], l.strip(), n
-    rep.require(filt and comp is not None, "query filter comprehension")
-    ok = False
-    tgt = comp.generators[0].target
-    val = tgt.elts[1].id if isinstance(tgt, ast.Tuple) and len(tgt.elts) == 2 and isinstance(tgt.elts[1], ast.Name) else None
-    conds = comp.generators[0].ifs
-    seen = set()
-    ok = bool(conds) and val is not None
-    for c in conds:
-        parts = c.values if isinstance(c, ast.BoolOp) and isinstance(c.op, ast.And) else [c]
-        for p in parts:
-            if isinstance(p, ast.Compare) and len(p.ops) == 1 and isinstance(p.ops[0], ast.IsNot) and isinstance(p.left, ast.Name) \
-                    and p.left.id == val:
-                seen.add(norm(p.comparators[0]))
-            else:
-                ok = False
-    ok = ok and seen == {"UNSET", "None"}
+                got = _params_filter(n, "params")
+                if got is not None:
+                    filt, line, keeps = [f], norm(n).splitlines()[0], got
+    rep.require(filt and keeps is not None, "the statement of query_params that filters params by value")
+    # (UNSET, None) = (False, False) is kept, (True, False) and (False, True) are dropped
+    ok = keeps == [True, False, False]
     rep.check(ok, "R10.5", "endpoint_macros.py.jinja::query_params::filter",
               "query parameters are filtered by something other than identity with UNSET / None (a present falsy value would be dropped)",
               where=f"{PKG}/templates/{em.name}:{filt[0].line}", lhs=line, rhs="if v is not UNSET and v is not None")
     rep.check(not filt[0].guards or all(g == "endpoint.query_parameters" for g, _ in filt[0].guards), "R10.5",
               "endpoint_macros.py.jinja::query_params::filter-unconditional", "the filter is not emitted whenever params is",
               where=f"{PKG}/templates/{em.name}:{filt[0].line}", lhs=filt[0].guards, rhs="same guard as `params = {}`")
-    # cookies and headers: wherever the macro emits the wire name of the parameter it loops over (directly, through a `set`
-    # variable or inside a macro it calls) it writes that parameter; the write of an optional parameter sits in the block of a
-    # generated `if` that tests for the UNSET sentinel, a write outside such a block is emitted for required parameters only
-    for mname, label in (("cookie_params", "cookie"), ("header_params", "header")):
+    # cookies and headers: the generated code collects them in a dict (`cookies[...] = `, `headers[...] = `).  Wherever the loop
+    # over the parameters emits such a write - as template text, through a `set` variable or inside a macro it calls - the write
+    # of an optional parameter sits in the block of a generated `if` that tests for the UNSET sentinel; a write outside such a
+    # block is emitted for required parameters only
+    for mname, label, target in (("cookie_params", "cookie", "cookies"), ("header_params", "header", "headers")):
         pm = em.macros.get(mname)
         rep.require(pm, f"{mname} macro")
         pfr = list(_frags(pm.body, em, jx, sets=True))
         ptev = _TplEval(pfr)
+        writes_to = re.compile(r"\b" + target + r"\[")
         n_pw = 0
         for i_fr, fr in enumerate(pfr):
-            if fr.kind != "expr" or not fr.loops:
+            if not fr.loops or fr.kind == "set":
                 continue
-            pv = f"{fr.loops[-1]}[*]"
-            if not re.search(re.escape(f"{pv}.name") + r"(?![\w])", ptev.reads(fr.expr, i_fr)):
-                continue
-            n_pw += 1
-            req = f"{pv}.required"
-            if _under_unset_test(pfr, i_fr):
-                rep.check(_implies(fr, req, False), "R10.5", f"{mname}::guarded", "guard misplaced",
-                          where=f"{PKG}/templates/{em.name}:{fr.line}")
-            else:
-                rep.check(_implies(fr, req, True), "R10.5", f"{mname}::unguarded",
-                          f"an optional {label} is sent without an UNSET test", where=f"{PKG}/templates/{em.name}:{fr.line}",
-                          lhs=fr.guards, rhs="implies parameter.required")
+            offsets = [m_.start() for m_ in writes_to.finditer(fr.text)] if fr.kind == "data" else \
+                [0] if writes_to.search(ptev.reads(fr.expr, i_fr)) else []
+            req = f"{fr.loops[-1]}[*].required"
+            for off in offsets:
+                n_pw += 1
+                if _under_unset_test(pfr, i_fr, off):
+                    rep.check(_implies(fr, req, False), "R10.5", f"{mname}::guarded", "guard misplaced",
+                              where=f"{PKG}/templates/{em.name}:{fr.line}")
+                else:
+                    rep.check(_implies(fr, req, True), "R10.5", f"{mname}::unguarded",
+                              f"an optional {label} is sent without an UNSET test", where=f"{PKG}/templates/{em.name}:{fr.line}",
+                              lhs=fr.guards, rhs="implies parameter.required")
         rep.floor(f"{label}_writes", n_pw, 1)
     # path parameters must be required
     vl = proto.methods.get("validate_location")
@@ -449,6 +471,81 @@ def run(rep: Report, ctx: Any) -> str:
     rep.not_decided.append("run-time values of attributes; nullable without type or composition falls through handle_nullable (observation)")
     rep.observe("Schema.handle_nullable: `nullable: true` on a schema without type/oneOf/anyOf/allOf is ignored")
     return LEVEL
+
+
+def _py_blocks(text: str) -> Iterator[ast.Module]:
+    """the statements of generated Python code that a piece of template text contains completely: for every line, the line together
+    with the deeper indented lines that follow it, if that parses"""
+    import textwrap
+
+    lines = text.split("\n")
+    ind = lambda l: len(l) - len(l.lstrip(" "))
+    for i, l in enumerate(lines):
+        if not l.strip():
+            continue
+        j = i + 1
+        while j < len(lines) and (not lines[j].strip() or ind(lines[j]) > ind(l)):
+            j += 1
+        try:
+            yield ast.parse(textwrap.dedent("\n".join(lines[i:j])))
+        except SyntaxError:
+            continue
+
+
+def _params_filter(n: ast.AST, var: str) -> "list[bool | None] | None":
+    """n drops entries of the dict `var` by their value: [is a value kept that is neither UNSET nor None, one that is UNSET, one
+    that is None] (None: the condition asks something else, e.g. truthiness); None if n is no such statement"""
+    def items_of(e: ast.expr) -> bool:
+        while isinstance(e, ast.Call) and norm(e.func) in ("list", "tuple") and len(e.args) == 1:
+            e = e.args[0]
+        return isinstance(e, ast.Call) and isinstance(e.func, ast.Attribute) and e.func.attr == "items" and not e.args \
+            and norm(e.func.value) in (var, f"{var}.copy()", f"dict({var})")
+
+    def value_var(t: ast.expr) -> "str | None":
+        return t.elts[1].id if isinstance(t, ast.Tuple) and len(t.elts) == 2 and isinstance(t.elts[1], ast.Name) else None
+
+    def ev(e: ast.expr, v: str, unset: bool, none: bool) -> "bool | None":
+        if isinstance(e, ast.BoolOp):
+            xs = [ev(x, v, unset, none) for x in e.values]
+            if isinstance(e.op, ast.And):
+                return False if any(x is False for x in xs) else None if any(x is None for x in xs) else True
+            return True if any(x is True for x in xs) else None if any(x is None for x in xs) else False
+        if isinstance(e, ast.UnaryOp) and isinstance(e.op, ast.Not):
+            x = ev(e.operand, v, unset, none)
+            return None if x is None else not x
+        if isinstance(e, ast.Compare) and len(e.ops) == 1 and isinstance(e.ops[0], (ast.Is, ast.IsNot)) and norm(e.left) == v \
+                and norm(e.comparators[0]) in ("UNSET", "None"):
+            x = unset if norm(e.comparators[0]) == "UNSET" else none
+            return x if isinstance(e.ops[0], ast.Is) else not x
+        if isinstance(e, ast.Call) and norm(e.func) == "isinstance" and len(e.args) == 2 and norm(e.args[0]) == v and norm(e.args[1]) == "Unset":
+            return unset
+        return None
+
+    cases = [(False, False), (True, False), (False, True)]
+    if isinstance(n, (ast.DictComp, ast.GeneratorExp, ast.ListComp)) and len(n.generators) == 1 and items_of(n.generators[0].iter):
+        g = n.generators[0]
+        v = value_var(g.target)
+        if v is None:
+            return None
+        if not g.ifs:
+            return None
+        cond: ast.expr = g.ifs[0] if len(g.ifs) == 1 else ast.BoolOp(op=ast.And(), values=list(g.ifs))
+        return [ev(cond, v, u, nn) for u, nn in cases]
+    if isinstance(n, ast.For) and items_of(n.iter) and value_var(n.target) is not None and len(n.body) == 1 and isinstance(n.body[0], ast.If) \
+            and not n.body[0].orelse:
+        k, v = n.target.elts[0], value_var(n.target)   # type: ignore[attr-defined]
+        body = n.body[0].body
+        deletes = len(body) == 1 and (
+            (isinstance(body[0], ast.Delete) and [norm(t) for t in body[0].targets] == [f"{var}[{norm(k)}]"])
+            or (isinstance(body[0], ast.Expr) and isinstance(body[0].value, ast.Call) and norm(body[0].value.func) == f"{var}.pop"
+                and body[0].value.args and norm(body[0].value.args[0]) == norm(k)))
+        if deletes:
+            out: "list[bool | None]" = []
+            for u, nn in cases:
+                x = ev(n.body[0].test, v, u, nn)
+                out.append(None if x is None else not x)
+            return out
+    return None
 
 
 def _tests_unset(text: str) -> bool:
@@ -497,24 +594,25 @@ def _adds_null(p: SimPath) -> bool:
     return any(any(isinstance(n, ast.Attribute) and n.attr == "NULL" for n in walk_own(s)) for s in p.stmts())
 
 
-def _code_before(frs: list[tplq.Frag], i: int) -> tuple[str, str]:
+def _code_before(frs: list[tplq.Frag], i: int, offset: int = 0) -> tuple[str, str]:
     """(the last complete non-blank line, the beginning of the current line) of the generated code at the point where fragment
-    i is emitted, read backwards from the fragments emitted before it; an output expression reads HOLE"""
-    out = ""
+    i is emitted (`offset` characters into it, for template text), read backwards from the fragments emitted before it; an
+    output expression reads HOLE"""
+    out = frs[i].text[:offset] if frs[i].kind == "data" else ""
     for fr in reversed(frs[:i]):
+        if sum(1 for l in out.split("\n")[:-1] if l.strip()) >= 2:
+            break
         if fr.kind == "set":
             continue
         out = (fr.text if fr.kind == "data" else HOLE) + out
-        if sum(1 for l in out.split("\n")[:-1] if l.strip()) >= 2:
-            break
     lines = out.split("\n")
     return next((l for l in reversed(lines[:-1]) if l.strip()), ""), lines[-1]
 
 
-def _under_unset_test(frs: list[tplq.Frag], i: int) -> bool:
-    """fragment i starts the first statement of the block of a generated `if` that runs only for a value that is not the UNSET
-    sentinel: the line before is such an `if` and the current line is indented deeper"""
-    prev, cur = _code_before(frs, i)
+def _under_unset_test(frs: list[tplq.Frag], i: int, offset: int = 0) -> bool:
+    """at this point the generated code starts the first statement of the block of an `if` that runs only for a value that is not
+    the UNSET sentinel: the line before is such an `if` and the current line is indented deeper"""
+    prev, cur = _code_before(frs, i, offset)
     ind = lambda l: len(l) - len(l.lstrip(" "))
     return bool(re.match(r"\s*(el)?if\b.*:\s*$", prev)) and _tests_unset(prev) and ind(cur) > ind(prev)
 
@@ -928,6 +1026,109 @@ def _peel_selection(it: nodes.Node) -> "tuple[nodes.Node, list[tuple[str, str | 
     if not picks:
         return it, []
     return n, picks[::-1]
+
+
+class _Forwarding:
+    """Where a function hands on the requiredness of the declaration it was given.  A *source* is the parameter `required` or
+    `<parameter>.required` (not self / cls), or a local that is only ever bound to a source.  It is handed on by a call that
+    receives it as keyword `required=`, as the positional argument of a parameter called `required`, by a `dict(required=...)` /
+    `{"required": ...}` (keyword dictionaries), or - for `<parameter>.required` - by passing the parameter itself to a function
+    that forwards its `.required`."""
+
+    def __init__(self, ix: Any):
+        self.ix = ix
+        self.by_name: dict[str, list[Any]] = {}
+        for g in ix.all_functions:
+            self.by_name.setdefault(g.name, []).append(g)
+        self._params: dict[str, list[str]] = {}
+        self._locals: dict[str, Locals] = {}
+        self._src: dict[str, set[str]] = {}
+        # parameters whose `.required` a function forwards, directly; then through one and two levels of delegation
+        self.decl_params: dict[str, set[str]] = {g.qual: set() for g in ix.all_functions}
+        for _ in range(3):
+            for g in ix.all_functions:
+                self._src.pop(g.qual, None)
+                for n in ast.walk(g.node):
+                    if isinstance(n, ast.Call):
+                        self.decl_params[g.qual] |= {s_.split(".")[0] for s_ in self._forwarded(g, n) if s_.endswith(".required")}
+
+    def params(self, f: Any) -> list[str]:
+        if f.qual not in self._params:
+            self._params[f.qual] = [a.arg for a in f.params]
+        return self._params[f.qual]
+
+    def source(self, f: Any, e: ast.AST, depth: int = 0) -> "str | None":
+        ps = self.params(f)
+        if isinstance(e, ast.Name) and e.id == "required" and "required" in ps:
+            return "required"
+        if isinstance(e, ast.Attribute) and e.attr == "required" and isinstance(e.value, ast.Name) and e.value.id in ps \
+                and e.value.id not in ("self", "cls"):
+            return f"{e.value.id}.required"
+        if isinstance(e, ast.Name) and e.id not in ps and depth < 2:
+            if f.qual not in self._locals:
+                self._locals[f.qual] = Locals(f.node)
+            ds = self._locals[f.qual].defs.get(e.id, [])
+            got = {self.source(f, v, depth + 1) if k == "assign" and v is not None else None for k, _, v in ds}
+            if len(got) == 1 and None not in got:
+                return next(iter(got))
+        return None
+
+    def _callee_params(self, c: ast.Call) -> list[tuple[Any, list[str]]]:
+        """parameter lists (without self / cls) of the functions of the package the call may mean, by its last name; for a class,
+        its fields"""
+        last = call_name(c).rsplit(".", 1)[-1]
+        out = []
+        for g in self.by_name.get(last, []):
+            ps = self.params(g)
+            out.append((g, ps[1:] if ps[:1] in (["self"], ["cls"]) else ps))
+        for k in self.ix.classes.values():
+            if k.name == last:
+                out.append((None, list(self.ix.all_fields(k))))
+        return out
+
+    def _forwarded(self, f: Any, c: ast.Call) -> set[str]:
+        """the sources that call c receives"""
+        out: set[str] = set()
+        for kw in c.keywords:
+            if kw.arg == "required":
+                s_ = self.source(f, kw.value)
+                if s_:
+                    out.add(s_)
+        callees = self._callee_params(c)
+        for i, a in enumerate(c.args):
+            s_ = self.source(f, a)
+            if s_ and any(i < len(ps) and ps[i] == "required" for _, ps in callees):
+                out.add(s_)
+        # the declaration itself, handed to a function that forwards its `.required`
+        ps_f = self.params(f)
+        for g, ps in callees:
+            if g is None:
+                continue
+            passed = [(ps[i], a) for i, a in enumerate(c.args) if i < len(ps)] + [(kw.arg, kw.value) for kw in c.keywords if kw.arg]
+            for pn, a in passed:
+                if pn in self.decl_params.get(g.qual, ()) and isinstance(a, ast.Name) and a.id in ps_f and a.id not in ("self", "cls"):
+                    out.add(f"{a.id}.required")
+        return out
+
+    def in_expr(self, f: Any, e: ast.AST) -> set[str]:
+        out: set[str] = set()
+        for n in ast.walk(e):
+            if isinstance(n, ast.Call):
+                out |= self._forwarded(f, n)
+            elif isinstance(n, ast.Dict):
+                for k, v in zip(n.keys, n.values):
+                    if isinstance(k, ast.Constant) and k.value == "required" and self.source(f, v):
+                        out.add(self.source(f, v))
+        return out
+
+    def in_stmt(self, f: Any, st: ast.stmt) -> bool:
+        return any(self.in_expr(f, e) for e in own_exprs(st))
+
+    def sources(self, f: Any) -> set[str]:
+        """the sources f hands on somewhere (empty: f is not a forwarder)"""
+        if f.qual not in self._src:
+            self._src[f.qual] = {s_ for st in ast.walk(f.node) if isinstance(st, ast.stmt) for e in own_exprs(st) for s_ in self.in_expr(f, e)}
+        return self._src[f.qual]
 
 
 class _Mentions:
